@@ -224,3 +224,32 @@ Proof.
   intros Hok. exact (G ops _ _ 0%Z [] Hinv0 Habs0 eq_refl Hok).
 Qed.
 Print Assumptions src_bucket_refines_row.
+
+(** * `ADWIN._calculate_threshold` (the bound eps_cut that justifies every cut): for every number system the generated
+      method returns the model's [eps_cut] whenever neither sub-window has exactly min_window_size + 1 values.  At that size the
+      reciprocal is 1/0: the model says "no cut possible" (+inf, what NumPy integer operands give); the translation, which
+      types the operands as Python ints, raises ZeroDivisionError there - the one place where the typing hint is too coarse
+      (`w0_instances` is a NumPy integer in the running code), stated here rather than hidden. *)
+Section EqAdwinThreshold.
+  Context {A : Arith}.
+  Definition acfg_t (c : adwin_cfg A) := (ad_min c, ad_clock c, ad_delta c, ad_m c, ad_mws c).
+  Definition athr_t (c : adwin_cfg A) (s : adwin_st A) := (acfg_t c, avar s, awidth s).
+
+  Lemma ADWIN_threshold_eq : forall c s w0 w1, (w0 <> ad_mws c + 1)%Z -> (w1 <> ad_mws c + 1)%Z ->
+    exists e, eps_cut c s w0 w1 = Some e /\ ADWIN__calculate_threshold (athr_t c s) w0 w1 = Ok (athr_t c s, e).
+  Proof.
+    intros c s w0 w1 H0 H1. unfold eps_cut, ADWIN__calculate_threshold, athr_t, acfg_t.
+    destruct (Z.eqb_spec w0 (ad_mws c + 1)); [contradiction|]. destruct (Z.eqb_spec w1 (ad_mws c + 1)); [contradiction|]. cbn [orb].
+    destruct (Z.eqb_spec (w0 - (ad_mws c + 1)) 0); [lia|]. destruct (Z.eqb_spec (w1 - (ad_mws c + 1)) 0); [lia|]. cbn [bind].
+    change (3 =? 0)%Z with false. cbn [bind]. eexists. split; reflexivity.
+  Qed.
+
+  Lemma ADWIN_threshold_div0 : forall c s w0 w1, (w0 = ad_mws c + 1 \/ w1 = ad_mws c + 1)%Z ->
+    eps_cut c s w0 w1 = None /\ ADWIN__calculate_threshold (athr_t c s) w0 w1 = Raise ZeroDivisionError.
+  Proof.
+    intros c s w0 w1 H. unfold eps_cut, ADWIN__calculate_threshold, athr_t, acfg_t. split.
+    - destruct H as [-> | ->]; rewrite Z.eqb_refl; [reflexivity|rewrite orb_true_r; reflexivity].
+    - destruct (Z.eqb_spec (w0 - (ad_mws c + 1)) 0) as [E0|N0]; [reflexivity|]. cbn [bind].
+      destruct (Z.eqb_spec (w1 - (ad_mws c + 1)) 0) as [E1|N1]; [reflexivity|]. lia.
+  Qed.
+End EqAdwinThreshold.
